@@ -66,7 +66,7 @@ TAGS = {
     "cb:effect": {"C11", "C12", "C08"},
     "cb:after": {"C11", "C02"},
     "loop.wait": {"C01", "C02", "C05", "C06", "C07", "C12", "C03", "C11", "C18"},
-    "loop.wrote": {"C01", "C08", "C12", "C07"},
+    "loop.wrote": {"C01", "C08", "C12", "C07", "C05"},      # C05: every accepted action is reduced (and its state written)
     "eff.spawn": {"C11", "C12", "C07", "C02"},      # C02: a follow-up action takes its place in the queue like any dispatch
     "loop.recv": {"C01", "C02", "C05", "C06", "C07"},
     "red.begin": {"C07", "C12"},
